@@ -8,7 +8,7 @@ the wire is the method's own name.
 import ast
 import re
 
-from ..model import (AnalysisError, walk_no_nested, dotted, const_str, norm,
+from ..model import (AnalysisError, walk_no_nested, dotted, const_str, norm, eqsrc,
                      kwarg)
 from ..ops import operations, OPS, CONTROL_KW, last_assign_before
 
@@ -778,6 +778,136 @@ def run(repo, rep, tier):
                             '(anchor of C04.R3b)')
 
     _r16_default_only_when_omitted(repo, rep, conn)
+    _r17_reply_text_is_not_truth_tested(repo, rep, conn)
+    _r19_paths_sent_without_host(repo, rep, conn)
+    from .c03 import normalised_arguments_are_the_ones_sent
+    normalised_arguments_are_the_ones_sent(repo, rep, 'C04.R18')
+
+
+def _r17_reply_text_is_not_truth_tested(repo, rep, conn):
+    """C04.R17: cimvalue(v, 'boolean') is bool(v) - the Python truth test.
+    The value of a RETURNVALUE / PARAMVALUE arrives from the parser as the
+    *text* of its VALUE element, so handing it to cimvalue() under a type
+    that can be 'boolean' turns <VALUE>FALSE</VALUE> into True: the
+    operation done directly returns False, done over CIM-XML it returns
+    True.  Every call of cimvalue() on the reply path therefore has a type
+    argument that cannot be 'boolean' where it is made: a constant other
+    than 'boolean', or a fact `t == 'boolean'` that is false there."""
+    from ..cfg import stmt_facts
+    r17 = rep.rule('C04.R17', 'reply text never reaches the truth test of '
+                   "cimvalue(..., 'boolean')")
+    cv = repo.module('pywbem/_cim_obj.py').functions.get('cimvalue')
+    if cv is None:
+        raise AnalysisError('cimvalue() vanished')
+    truth = False
+    for st, (facts, _t) in stmt_facts(cv.node).items():
+        if isinstance(st, ast.Return) and isinstance(st.value, ast.Call) \
+                and dotted(st.value.func) == 'bool' and any(
+                    pol and eqsrc(t, "type == 'boolean'")
+                    for t, pol in facts):
+            truth = True
+    if not truth:
+        r17.notes.append("cimvalue(v, 'boolean') is no longer bool(v): "
+                         'nothing to check')
+        return
+    nsites = 0
+    for f in list(conn.methods.values()):
+        for g in [f] + [x for x in f.nested.values()]:
+            sf = None
+            for c in walk_no_nested(g.node):
+                if not (isinstance(c, ast.Call) and
+                        dotted(c.func) == 'cimvalue' and len(c.args) >= 2):
+                    continue
+                nsites += 1
+                r17.sites += 1
+                r17.functions.add(f.fq)
+                t = c.args[1]
+                ok = isinstance(t, ast.Constant) and t.value != 'boolean'
+                if not ok:
+                    if sf is None:
+                        sf = stmt_facts(g.node)
+                    for st, (facts, _t) in sf.items():
+                        if isinstance(st, (ast.If, ast.For, ast.While,
+                                           ast.Try, ast.With)):
+                            continue
+                        if not any(x is c for x in ast.walk(st)):
+                            continue
+                        for tt, pol in facts:
+                            if isinstance(tt, ast.Compare) and \
+                                    len(tt.ops) == 1 and \
+                                    norm(tt.left) == norm(t) and \
+                                    const_str(tt.comparators[0]) == \
+                                    'boolean':
+                                if (isinstance(tt.ops[0], ast.Eq) and
+                                        not pol) or \
+                                        (isinstance(tt.ops[0], ast.NotEq)
+                                         and pol):
+                                    ok = True
+                r17.ob(ok, '%s|%s' % (g.qualname, norm(c, 60)))
+                if not ok:
+                    rep.finding(r17, g.qualname, norm(c, 70),
+                                'text-truth-tested', OPS, c.lineno,
+                                'the type argument %s can be \'boolean\' '
+                                'here, and the value is the text of a VALUE '
+                                'element: cimvalue() applies bool() to it, '
+                                'so <VALUE>FALSE</VALUE> becomes True (the '
+                                'same method invoked directly returns '
+                                'False)' % norm(t))
+    if nsites < 1:
+        r17.notes.append('no call of cimvalue() on the reply path')
+
+
+def _r19_paths_sent_without_host(repo, rep, conn):
+    """C04.R19: a path that goes into a request is sent as a bare
+    INSTANCENAME / CLASSNAME: the operations strip the namespace (it
+    travels in LOCALNAMESPACEPATH) and the host (it does not travel at
+    all).  Stripping only the namespace produces the same XML - the encoder
+    picks INSTANCENAME as soon as the namespace is None - but the operation
+    done directly gets the path with its host, and a path with a host is a
+    different key: ModifyInstance succeeds over CIM-XML and answers
+    CIM_ERR_NOT_FOUND directly.  So wherever the request path of
+    WBEMConnection sets `<path>.namespace = None` it also sets
+    `<path>.host = None` for the same path on the same way through."""
+    from ..cfg import CFG
+    r19 = rep.rule('C04.R19', 'a path stripped of its namespace for the '
+                   'request is stripped of its host too')
+    n = 0
+    for f in conn.methods.values():
+        strips = [st for st in walk_no_nested(f.node)
+                  if isinstance(st, ast.Assign) and len(st.targets) == 1 and
+                  isinstance(st.targets[0], ast.Attribute) and
+                  st.targets[0].attr == 'namespace' and
+                  isinstance(st.value, ast.Constant) and
+                  st.value.value is None]
+        if not strips:
+            continue
+        cfg = CFG(f.node)
+        hosts = [st for st in walk_no_nested(f.node)
+                 if isinstance(st, ast.Assign) and len(st.targets) == 1 and
+                 isinstance(st.targets[0], ast.Attribute) and
+                 st.targets[0].attr == 'host' and
+                 isinstance(st.value, ast.Constant) and
+                 st.value.value is None]
+        for st in strips:
+            n += 1
+            r19.sites += 1
+            r19.functions.add(f.fq)
+            recv = norm(st.targets[0].value)
+            ok = any(norm(h.targets[0].value) == recv and
+                     (cfg.dominates(h, st) or cfg.dominates(st, h))
+                     for h in hosts)
+            r19.ob(ok, '%s|%s' % (f.qualname, norm(st, 60)))
+            if not ok:
+                rep.finding(r19, f.qualname, norm(st, 70), 'host-kept',
+                            OPS, st.lineno,
+                            '%s.namespace is cleared for the request but '
+                            '%s.host is not: the XML is the same, the '
+                            'operation done directly sees a path with a '
+                            'host and does not find the object'
+                            % (recv, recv))
+    if n < 3:
+        raise AnalysisError('C04.R19: only %d namespace-stripping sites '
+                            'found' % n)
 
 
 def _helper_falls_back_on_none(hf):
@@ -796,9 +926,11 @@ def _helper_falls_back_on_none(hf):
             return (isinstance(t.ops[0], ast.Is) and pol) or \
                 (isinstance(t.ops[0], ast.IsNot) and not pol)
         return False
-    sf = stmt_facts(hf.node)
+    from ..inline import Flat
+    hnode = Flat(hf).node
+    sf = stmt_facts(hnode)
     good = 0
-    for st in walk_no_nested(hf.node):
+    for st in walk_no_nested(hnode):
         if isinstance(st, ast.Assign) and len(st.targets) == 1:
             v, who = st.value, norm(st.targets[0])
         elif isinstance(st, ast.Return) and st.value is not None:
@@ -807,7 +939,19 @@ def _helper_falls_back_on_none(hf):
             continue
         if is_default(v):
             facts = sf.get(st, ((), ()))[0]
-            if any(none_fact(t, pol, who) for t, pol in facts):
+
+            def omitted(t, pol):
+                if isinstance(t, ast.Compare):
+                    return none_fact(t, pol, who)
+                if who is None and isinstance(t, ast.Call) and pol and \
+                        dotted(t.func) == 'isinstance' and \
+                        len(t.args) == 2 and norm(t.args[1]) == 'str':
+                    return True
+                if isinstance(t, ast.BoolOp) and \
+                        isinstance(t.op, ast.Or) and pol:
+                    return all(omitted(v_, True) for v_ in t.values)
+                return False
+            if any(omitted(t, pol) for t, pol in facts):
                 good += 1
             else:
                 return False
@@ -867,9 +1011,21 @@ def _r16_default_only_when_omitted(repo, rep, conn):
                     if sf is None:
                         sf = stmt_facts(f.node)
                     facts = sf.get(st, ((), ()))[0]
-                    verdict = any(
-                        isinstance(t, ast.Compare) and
-                        none_test(t, pol, norm(t.left)) for t, pol in facts)
+                    def omitted(t, pol):
+                        # no namespace was given: something is None, or
+                        # the object is a bare class name string
+                        if isinstance(t, ast.Compare):
+                            return none_test(t, pol, norm(t.left))
+                        if isinstance(t, ast.Call) and pol and \
+                                dotted(t.func) == 'isinstance' and \
+                                len(t.args) == 2 and \
+                                norm(t.args[1]) == 'str':
+                            return True
+                        if isinstance(t, ast.BoolOp) and \
+                                isinstance(t.op, ast.Or) and pol:
+                            return all(omitted(v, True) for v in t.values)
+                        return False
+                    verdict = any(omitted(t, pol) for t, pol in facts)
                 elif isinstance(v, ast.BoolOp) and \
                         any(is_default(x) for x in v.values):
                     verdict = False
